@@ -114,6 +114,9 @@ def _worker(inq, outq, registry_mod):
             r = fn(item, res)
             if r is not None:
                 res = r
+            if res["status"] == "holds" and res.get("unknown", 0) > 0:
+                res["status"] = "inconclusive"
+                res["notes"].append("z3 answered unknown on %d queries: no verdict for this item" % res["unknown"])
         except (EngineError, Inconclusive) as e:
             res["status"] = "inconclusive"
             res["notes"].append("%s: %s" % (type(e).__name__, e))
